@@ -75,6 +75,7 @@ def gen_program(rng):
         offset = 0
     ncap = rng.choice([1, 2, 2, 3, 3, 4, 5])
     lines = []            # (frame, [(word, tag)])
+    nwriter = 0
     frame = base
     shown = False
     gaps = []
@@ -87,7 +88,10 @@ def gen_program(rng):
 
     for ci in range(ncap):
         ws = []
-        how = rng.choice(["inline", "inline", "edm-first", "none", "own-line", "own-line", "bare-eoc", "after-eoc"])
+        # "writer" (wave 7) = the line pycaption's own SCCWriter produces: preamble codes in the indent-0 form and EDM
+        # directly before the EOC in every load line (theorem C06_popon_times_inline)
+        how = rng.choice(["inline", "inline", "edm-first", "none", "own-line", "own-line", "bare-eoc", "after-eoc",
+                          "writer", "writer"])
         if how == "edm-first" and shown:
             ws += code(g.EDM, 1)                       # the common real-file layout: 942c 942c 94ae 94ae 9420 ...
             shown = False
@@ -96,7 +100,7 @@ def gen_program(rng):
         r0 = rng.randint(1, 14)
         rows = [r0, r0 + 1][:nrows] if rng.random() < 0.8 else sorted(rng.sample(range(1, 16), nrows))
         for row in rows:
-            unit = [(g.pac(row, rng.choice([0, 0, 4, 8])), None)]
+            unit = [(g.pac_indent0(row, rng.random() < 0.2) if how == "writer" else g.pac(row, rng.choice([0, 0, 4, 8])), None)]
             ws += unit * 2 if dd() else unit
             ws += [(w, None) for w in g.text_words(rng.choice(WORDS))]
         if rng.random() < 0.1:
@@ -105,6 +109,10 @@ def gen_program(rng):
             ws += code(g.EDM, 1)
             n = rng.choice([0, 0, 1, 2, 3, 4, 5, 6])
             ws += [(FILL, None)] * n
+            shown = False
+        elif how == "writer":
+            nwriter += 1
+            ws += code(g.EDM, 1)                        # always, also with nothing displayed (no effect then)
             shown = False
         elif how == "inline" and rng.random() < 0.3:
             ws += code(g.EDM, 1)                        # EDM with nothing displayed: no effect
@@ -135,7 +143,7 @@ def gen_program(rng):
     if offset == "big":
         offset = (frame // 30) + rng.choice([1, 50, 4000])
     return {"drop": drop, "doubled": str(doubled), "offset": offset,
-            "lines": [(f, [w for w, _ in part]) for f, part in lines], "events": events}
+            "lines": [(f, [w for w, _ in part]) for f, part in lines], "events": events, "writer_loads": nwriter}
 
 
 def tc_fields(frame, drop):
@@ -251,6 +259,7 @@ def run(ctx):
         dist["outcome"][oc] = dist["outcome"].get(oc, 0) + 1
         nshow = sum(1 for e in p["events"] if e[0] == 0)
         dist["captions"][nshow] = dist["captions"].get(nshow, 0) + 1
+        dist["writer_style_load_lines"] = dist.get("writer_style_load_lines", 0) + p.get("writer_loads", 0)
         # gaps between a clear and the next show (the five-frame rule), and durations near the flash bound
         five = False
         for (e1, t1), (e2, t2) in zip(zip(p["events"], instants), list(zip(p["events"], instants))[1:]):
